@@ -185,6 +185,71 @@ theorem C01_seqres_complete_chain_unchanged (ch : Chain) (db : Option DbRef) (ci
   unfold seqresWalk
   rw [List.range_eq_range', this]
 
+/-! ### what is inserted comes from the records -/
+
+/-- the residues the walk works on are the chain's residues plus residues made from SEQRES names of the walk -/
+def SeqInvN (orig : List Residue) (names : List (List Char)) (st : SeqSt) : Prop :=
+  ∃ ins : List Residue, (∀ r ∈ ins, ∃ seq ∈ names, ∃ idx, seqresResidue seq idx = some r) ∧
+    List.Perm st.residues (orig ++ ins)
+
+theorem seqStep_invN (orig : List Residue) (names : List (List Char)) (st : SeqSt) (index : Int) (seq : List Char)
+    (pos : Nat × Nat) (hseq : seq ∈ names) (h : SeqInvN orig names st) : SeqInvN orig names (seqStep st index seq pos) := by
+  have hins : ∀ st : SeqSt, SeqInvN orig names st → SeqInvN orig names
+      (match seqresResidue seq index with
+       | some r => { st with residues := (st.residues ++ [r]).mergeSort resLe }
+       | none => { st with errs := st.errs ++ [⟨.invalidating, "SEQRES residue name invalid", []⟩] }) := by
+    intro st hst
+    obtain ⟨ins, hfrom, hperm⟩ := hst
+    cases hr : seqresResidue seq index with
+    | none => exact ⟨ins, hfrom, hperm⟩
+    | some r =>
+      refine ⟨ins ++ [r], ?_, ?_⟩
+      · intro x hx
+        rcases List.mem_append.mp hx with hx | hx
+        · exact hfrom x hx
+        · simp only [List.mem_singleton] at hx; subst hx; exact ⟨seq, hseq, index, hr⟩
+      · simp only
+        refine (List.mergeSort_perm _ _).trans ?_
+        rw [← List.append_assoc]
+        exact List.Perm.append_right [r] hperm
+  unfold seqStep
+  simp only
+  split
+  · split
+    · obtain ⟨ins, hfrom, hperm⟩ := h
+      split <;> (try split) <;> exact ⟨ins, hfrom, hperm⟩
+    · split
+      · exact hins st h
+      · obtain ⟨ins, hfrom, hperm⟩ := h
+        split <;> exact ⟨ins, hfrom, hperm⟩
+  · exact hins st h
+
+theorem foldl_inv_mem {σ α} (P : σ → Prop) (f : σ → α → σ) (l : List α) (Q : α → Prop) (hl : ∀ x ∈ l, Q x)
+    (hstep : ∀ s x, Q x → P s → P (f s x)) (init : σ) (h0 : P init) : P (l.foldl f init) := by
+  induction l generalizing init with
+  | nil => exact h0
+  | cons x xs ih =>
+    exact ih (fun y hy => hl y (List.mem_cons_of_mem _ hy)) _ (hstep _ _ (hl x (List.mem_cons_self ..)) h0)
+
+/-- **every residue of a chain after the SEQRES checks is a residue it had, or an atom-less residue named by one of
+the chain's own SEQRES names** -/
+theorem C01_seqres_inserted_from_records (ch : Chain) (db : Option DbRef) (cid : Char)
+    (data : List (Nat × Nat × List (List Char))) (lines : List (Nat × List Char)) :
+    ∃ ins : List Residue,
+      (∀ r ∈ ins, ∃ seq ∈ (seqresNames data).map (·.1), ∃ idx, seqresResidue seq idx = some r) ∧
+      List.Perm (validateSeqresChain ch db cid data lines).1.residues (ch.residues ++ ins) := by
+  unfold validateSeqresChain
+  simp only
+  unfold seqresWalk
+  apply foldl_inv_mem (SeqInvN ch.residues ((seqresNames data).map (·.1))) _ _
+    (fun ri : Nat × List Char × Nat × Nat => ri.2.1 ∈ (seqresNames data).map (·.1))
+  · intro ri hri
+    have := (List.of_mem_zip hri).2
+    exact List.mem_map.mpr ⟨ri.2, this, rfl⟩
+  · intro st ri hq hst
+    exact seqStep_invN _ _ st _ _ _ hq hst
+  · exact ⟨[], fun _ hx => (by cases hx), by simp⟩
+
 /-- non-vacuity: residues 0 and 1 under a two-name SEQRES record without database reference meet the premise -/
 example : ([⟨0, none, []⟩, ⟨1, none, []⟩] : List Residue).map (·.serial) =
     (List.range (seqresNames [(1, 2, [['A', 'L', 'A'], ['G', 'L', 'Y']])]).length).map (fun (i : Nat) => (i : Int) + seqresOffset none) := by
